@@ -7,7 +7,7 @@ overlays (/repo is not modified). Every failing obligation is a false alarm of t
 Prints one line per (transformation, property) with the failing obligations; exit 1 if any."""
 import os, re, subprocess, sys, tempfile, shutil, concurrent.futures
 args = sys.argv[1:]
-ts = ["wrap", "namedbool", "invert", "flipcmp", "range2index", "timeflip"]; only = ""; skipfn = ""
+ts = ["wrap", "namedbool", "invert", "flipcmp", "range2index", "timeflip", "forbreak"]; only = ""; skipfn = ""
 while args and args[0].startswith("-"):
     if args[0] == "-t": ts = args[1].split(","); args = args[2:]
     elif args[0] == "-only": only = args[1]; args = args[2:]
